@@ -60,17 +60,25 @@ H("h_linear::lin_leq_ids_2", "pumpkin-solver", "lin_leq", ALLO, "quick", LIN_LEQ
   "n=2 DomainId terms, 0 holes, posting only (<=2 propagate calls), unwind 10",
   covers=["root conflict", "propagation at posting", "propagation at posting with live witness"],
   full_range=True)
-H("h_linear::lin_leq_ids_3_change", "pumpkin-solver", "lin_leq", ALLO, "quick", LIN_LEQ,
+H("h_linear::lin_leq_ids_2_change", "pumpkin-solver", "lin_leq", ALLO, "quick", LIN_LEQ,
+  "x1,x2: any non-empty i32 interval; c; one symbolic change (var, kind, value); V,W",
+  "n=2, posting + 1 symbolic change + real notify + propagate, unwind 4",
+  covers=["propagation at posting", "propagation after a change", "conflict after a change"],
+  full_range=True, timeout=2400, mem_gb=12)
+H("h_linear::lin_leq_ids_3", "pumpkin-solver", "lin_leq", ALLO, "thorough", LIN_LEQ,
+  "x1..x3: any non-empty i32 interval; c; V,W", "n=3, posting only, unwind 5",
+  covers=["propagation at posting"], full_range=True, timeout=3000, mem_gb=16)
+H("h_linear::lin_leq_ids_3_change", "pumpkin-solver", "lin_leq", ALLO, "thorough", LIN_LEQ,
   "x1..x3: any non-empty i32 interval; c: any i32; one change (var, kind, value) symbolic; V,W",
   "n=3 DomainId terms, 0 holes, posting + 1 symbolic change + notify + propagate, unwind 10",
   covers=["root conflict", "propagation at posting", "propagation after a change",
           "conflict after a change"],
-  full_range=True, timeout=2400)
+  full_range=True, timeout=4500, mem_gb=30)
 H("h_linear::lin_leq_ids_2_holes_change", "pumpkin-solver", "lin_leq", ALLO, "thorough", LIN_LEQ,
   "x1,x2: any interval with 1 hole each; c; one symbolic change; V,W",
   "n=2, 1 hole per variable, posting + 1 change, unwind 10", full_range=True,
   covers=["propagation at posting", "propagation after a change"])
-H("h_linear::lin_leq_views_pos_neg_change", "pumpkin-solver", "lin_leq", ALLO, "quick",
+H("h_linear::lin_leq_views_pos_neg_change", "pumpkin-solver", "lin_leq", ALLO, "thorough",
   LIN_LEQ + VIEW,
   "x1,x2: any interval; views 1*x1+o1, -1*x2+o2 with any offsets whose images fit i32; c; one change",
   "n=2 AffineView<DomainId> terms (scales 1,-1), posting + 1 change, unwind 10", full_range=True,
@@ -84,11 +92,11 @@ H("h_linear::lin_leq_ids_2_backtrack", "pumpkin-solver", "lin_leq", ALLO, "thoro
   "n=2, posting + change + backtrack (real synchronise of trailed state) + change, unwind 10",
   full_range=True, covers=["propagation after a change"], timeout=2400)
 
-H("h_linear::lin_ne_ids_2", "pumpkin-solver", "lin_ne", ALLO, "quick", LIN_NE,
+H("h_linear::lin_ne_ids_2", "pumpkin-solver", "lin_ne", ALLO, "thorough", LIN_NE,
   "x1,x2: any interval with 1 hole; rhs any i32; two symbolic changes; V,W",
   "n=2 DomainId terms, 1 hole, posting + 2 changes with notify(Assign) through the real watch list",
-  covers=["root conflict", "propagation after a change", "conflict after a change"],
-  full_range=True, timeout=2400)
+  covers=["root conflict", "propagation after a change"],
+  full_range=True, timeout=3600, mem_gb=24)
 H("h_linear::lin_ne_ids_3", "pumpkin-solver", "lin_ne", ALLO, "thorough", LIN_NE,
   "x1..x3 any interval; rhs; two changes", "n=3, 0 holes, posting + 2 changes", full_range=True,
   covers=["propagation after a change"], timeout=3000)
@@ -99,7 +107,7 @@ H("h_linear::lin_ne_views_pos_neg", "pumpkin-solver", "lin_ne", ALLO, "thorough"
 H("h_linear::lin_ne_ids_2_backtrack", "pumpkin-solver", "lin_ne", ALLO, "quick", LIN_NE,
   "x1,x2 any interval; rhs; two changes, the first undone by backtracking",
   "n=2, posting + change + backtrack (real synchronise + notify_backtrack) + change",
-  full_range=True, covers=["propagation after a change", "conflict after a change"], timeout=2400)
+  full_range=True, covers=["propagation after a change"], timeout=2400, mem_gb=14)
 
 ABS = ["AbsoluteValuePropagator::{initialise_at_root,debug_propagate_from_scratch}"] + CTX
 MAXP = ["MaximumPropagator::{initialise_at_root,debug_propagate_from_scratch}"] + CTX
@@ -116,11 +124,11 @@ H("h_arith::abs_negated_view_full", "pumpkin-solver", "abs", ALLO, "thorough", A
   "signed = -x (x any interval, lb > i32::MIN); absolute any interval", "full i32, posting only",
   full_range=True, covers=["propagation at posting"])
 H("h_arith::max_ids_2", "pumpkin-solver", "max", ALLO, "quick", MAXP,
-  "a1,a2,rhs: any interval with 1 hole; V,W", "n=2, full i32, posting only", full_range=True,
-  covers=["propagation at posting", "conflict at posting"])
+  "a1,a2,rhs: any interval; V,W", "n=2, full i32, posting only", full_range=True,
+  covers=["propagation at posting", "conflict at posting"], mem_gb=12)
 H("h_arith::max_ids_3", "pumpkin-solver", "max", ALLO, "thorough", MAXP,
   "a1..a3,rhs any interval", "n=3, full i32, posting only", full_range=True,
-  covers=["propagation at posting"], timeout=2400)
+  covers=["propagation at posting"], timeout=4500, mem_gb=54)
 H("h_arith::min_as_negated_max_2", "pumpkin-solver", "max", ALLO, "thorough", MAXP + VIEW,
   "minimum(a1,a2)=rhs posted as maximum over scaled(-1) views; any interval with lb > i32::MIN",
   "n=2, full i32 minus i32::MIN, posting only", full_range=True,
@@ -165,11 +173,21 @@ REIF = ["ReifiedPropagator::{new,initialise_at_root,notify,notify_backtrack,sync
         "propagate,propagate_reification,map_propagation_status,filter_enqueue_decision,"
         "find_inconsistency}", "PropagationContextMut::{with_reification,build_reason,"
         "assign_literal}", "Literal::{get_true_predicate,get_false_predicate}"]
-H("h_reified::reified_leq_2_change", "pumpkin-solver", "reified", ALLO, "quick",
+H("h_reified::reified_leq_1_change", "pumpkin-solver", "reified", ALLO, "quick",
+  REIF + LIN_LEQ,
+  "x1 any interval; r in {free,true,false}; c; one symbolic change (to r or x1); V,W",
+  "r -> x1<=c, posting + 1 change with notify through the watch table", full_range=True,
+  covers=["propagation at posting", "propagation after a change"], timeout=3000, mem_gb=20)
+H("h_reified::reified_leq_1_backtrack", "pumpkin-solver", "reified", ALLO, "thorough",
+  REIF + LIN_LEQ,
+  "as above; two changes, the first undone by backtracking (cached inconsistency cleared by "
+  "the real synchronise)", "r -> x1<=c, posting + change + backtrack + change", full_range=True,
+  covers=["propagation after a change"], timeout=4500, mem_gb=50)
+H("h_reified::reified_leq_2_change", "pumpkin-solver", "reified", ALLO, "thorough",
   REIF + LIN_LEQ,
   "x1,x2 any interval; r in {free,true,false}; c; one symbolic change (to r or a variable); V,W",
   "r -> x1+x2<=c, posting + 1 change with notify through the watch table", full_range=True,
-  covers=["propagation at posting", "propagation after a change"], timeout=2400)
+  covers=["propagation at posting", "propagation after a change"], timeout=4500, mem_gb=54)
 H("h_reified::reified_leq_2_backtrack", "pumpkin-solver", "reified", ALLO, "thorough",
   REIF + LIN_LEQ,
   "as above; two changes, the first undone by backtracking (cached inconsistency cleared by "
